@@ -61,7 +61,8 @@ PARSE_BACKSTOP_S = 5.0
 RENDER_BACKSTOP_S = 20.0
 E_POSITIONS_PER_SHARD = 4
 MAX_BACKSTOP_HANGS_PER_SHARD = 3
-LOAD_C = 100  # render step budget: template loads <= LOAD_C * (context_depth_limit + 10)
+MAX_BUDGET_HANGS_PER_SHARD = 8  # after that many non-terminating renders the shard stops (it already fails)
+LOAD_C = 20  # render step budget: template loads <= LOAD_C * (context_depth_limit + 10); observed maximum 128 at limit 30
 
 CUTOFF_ERRORS = ("ContextDepthError", "TemplateInheritanceError")
 ALLOWED = "output | ContextDepthError | TemplateInheritanceError | other LiquidError"
@@ -573,7 +574,7 @@ class C09(Check):
         "verdict does not depend on the runner's own stack depth; a real caller is never shallower",
         "termination of parsing is decided by a step budget on TokenStream.next/next_token/__next__/current/peek: "
         f"<= {MON.STALL_LIMIT} consecutive calls without the position advancing and <= {MON.TOTAL_C}*(chars+1)^2+{MON.TOTAL_FLOOR} calls in "
-        "total; termination of rendering by a template-load budget of 100*(context_depth_limit+10); CPU-time alarms "
+        "total; termination of rendering by a template-load budget of 20*(context_depth_limit+10); CPU-time alarms "
         "(5 s parse, 20 s render; ITIMER_PROF / process_time, so machine load cannot fire them) are backstops only and were never needed on the unchanged tree",
         "a C-level regular-expression match cannot be interrupted by a Python signal handler: the regex/lexer blow-up "
         "family (E) therefore runs in a forked child under a kernel CPU limit (RLIMIT_CPU 20 s; the child announces each "
@@ -890,11 +891,14 @@ class C09(Check):
                    start: str = "t0", fsdir: Optional[str] = None) -> None:
         case = {"phase": "render", "family": fam, "kinds": list(kinds), "wrapper": w, "b": b, "templates": templates,
                 "limits": limits, "mode": mode, "api": api, "loader": ld, "start": start}
-        if res.counters.get("render_cases_hit_cpu_backstop", 0) >= MAX_BACKSTOP_HANGS_PER_SHARD:
+        if (res.counters.get("render_cases_hit_cpu_backstop", 0) >= MAX_BACKSTOP_HANGS_PER_SHARD
+                or res.counters.get("render_cases_over_load_budget", 0) >= MAX_BUDGET_HANGS_PER_SHARD):
             # every further hang costs RENDER_BACKSTOP_S of CPU; the shard already fails
             res.count("render_cases_skipped_after_repeated_hangs")
             return
         r = run_render_case(templates, limits, mode, api, ld, start, fsdir=fsdir)
+        if r["kind"] == "budget":
+            res.count("render_cases_over_load_budget")
         if r["kind"] in ("hang", "killed"):
             # only a suspicion: re-run this one case alone in a forked child under a kernel CPU limit
             out, sig = MON.run_isolated(
